@@ -793,7 +793,7 @@ func (x *Exec) allocAddr(st *State, hint string) *Term {
 	// allocation time stamps: the new object is the one allocated at the next tick
 	st.alloc = Add(st.alloc, IntLit(1))
 	st.assumeRaw(Eq(App("alloctime", SInt, a), st.alloc))
-	if _, ok := st.ghost["hijacked"]; ok {
+	if _, ok := st.ghost["hijacked"]; ok || strings.Contains(hint, "Responder") {
 		// nothing can have hijacked a responder that did not exist yet
 		st.assumeRaw(Eq(Select(st.ghostArr("hijacked", SInt), a), IntLit(0)))
 	}
